@@ -205,8 +205,22 @@ pub fn strategy() -> impl Strategy<Value = Case> {
 }
 
 pub fn raw_strategy() -> impl Strategy<Value = RawCase> {
-    (vec(field().prop_map(|f| f.ty), 0..8), any::<bool>(), prop_oneof![vec(any::<u8>(), 0..40), vec(prop::sample::select(vec![0u8, 1, 2, 3, 4, 0x61, 0xC3, 0xA9, 0xFF]), 0..40)])
-        .prop_map(|(types, big_endian, data)| RawCase { types, big_endian, data })
+    let free = (vec(field().prop_map(|f| f.ty), 0..8), any::<bool>(), prop_oneof![vec(any::<u8>(), 0..40), vec(prop::sample::select(vec![0u8, 1, 2, 3, 4, 0x61, 0xC3, 0xA9, 0xFF]), 0..40)])
+        .prop_map(|(types, big_endian, data)| RawCase { types, big_endian, data });
+    // a payload that is valid UTF-8 as a whole while the string field's length prefix cuts a multi-byte character in
+    // two (the rest of the character lands in the following fields / trailing bytes): the string itself is invalid
+    let split_char = (g::scod(), any::<bool>(), vec(prop::sample::select(vec!["a", "é", "€", "𝄞", "z", "ß"]), 1..12), any::<u16>(), vec(prop::sample::select(vec![RKind::Uint(8), RKind::Sint(8), RKind::Bool, RKind::Uint(16)]), 0..4), any::<bool>())
+        .prop_map(|(scod, big_endian, pieces, cut, tail_kinds, vari)| {
+            let text: String = pieces.concat();
+            let k = (cut as usize * (text.len() + 1)) >> 16; // 0..=len, may or may not fall on a character boundary
+            let mut data = if big_endian { (k as u16).to_be_bytes().to_vec() } else { (k as u16).to_le_bytes().to_vec() };
+            // the length prefix itself must be valid UTF-8 too: lengths below 128 give 00 xx / xx 00
+            data.extend_from_slice(text.as_bytes());
+            let mut types = vec![RType { kind: RKind::Str, vari, trai: false, scod }];
+            types.extend(tail_kinds.into_iter().map(|kind| RType { kind, vari: false, trai: false, scod: 0 }));
+            RawCase { types, big_endian, data }
+        });
+    prop_oneof![5 => free, 1 => split_char]
 }
 
 pub fn run(run: &Run) {
